@@ -32,6 +32,16 @@ NOT_FUNCS = {"np.bitwise_not", "numpy.bitwise_not", "np.logical_not",
 
 
 MUTANTS = [
+    ("cube planes blanked from the first plane's NaNs", "AegeanTools/MIMAS.py",
+     "        for plane in range(data.shape[0]):\n"
+     "            mask_plane(data[plane], wcs, region, negate)\n",
+     "        mask_plane(data[0], wcs, region, negate)\n"
+     "        blanked = np.isnan(data[0])\n"
+     "        data[1:, blanked] = np.nan\n", "C10-R3"),
+    ("only the first plane of a cube masked", "AegeanTools/MIMAS.py",
+     "        for plane in range(data.shape[0]):\n"
+     "            mask_plane(data[plane], wcs, region, negate)\n",
+     "        mask_plane(data[0], wcs, region, negate)\n", "C10-R4"),
     ("origin 1 for numpy indices", "AegeanTools/MIMAS.py",
      "ra, dec = wcs.wcs_pix2world(indexes, 0).transpose()",
      "ra, dec = wcs.wcs_pix2world(indexes, 1).transpose()", "C10-R1"),
@@ -602,6 +612,55 @@ def run(ctx):
         ctx.check("C10-R4", mf, "negate forwarded in plane loop",
                   "negate" in inv, "the cube branch drops the negate option",
                   node=c)
+    # frame condition of the driver: the pixel values are written by the
+    # 2-d routine only
+    from ..core import view_writes
+    vw = view_writes(mf.node, root_attrs=("data",))
+    for st, nm, what in vw:
+        if isinstance(st, ast.Assign) and norm(st.targets[0]) == what:
+            continue        # im[0].data = data
+        # does the written selection / value derive from pixel VALUES?
+        aliases = {a for _, a, _ in vw}
+        seen, todo = set(), set()
+        tg = st.targets[0] if isinstance(st, ast.Assign) else st.target
+        for part in ([tg.slice] if isinstance(tg, ast.Subscript) else []) \
+                + [st.value]:
+            todo |= names_in(part)
+        while todo:
+            x = todo.pop()
+            if x in seen:
+                continue
+            seen.add(x)
+            for d in walk_no_nested(mf.node):
+                if isinstance(d, ast.Assign) and any(
+                        norm(t) == x for t in d.targets):
+                    todo |= names_in(d.value)
+        if not (seen & aliases):
+            ctx.unknown_site("C10-R3", mf, "mask_file writes %s from values "
+                             "that do not derive from the pixels" %
+                             norm(st, 50), node=st)
+            continue
+        ctx.check("C10-R3", mf, "write to the image in mask_file: " +
+                  norm(st, 60), False,
+                  "mask_file writes pixel values itself (through %s, a view "
+                  "of %s): only mask_plane, which decides from the pixel "
+                  "POSITIONS, may blank pixels -- a mask derived from pixel "
+                  "values also blanks (or keeps) pixels because of what an "
+                  "other plane contains" % (nm, what), node=st)
+    single = [c for c in walk_no_nested(mf.node) if isinstance(c, ast.Call)
+              and norm(c.func) == "mask_plane" and c.args
+              and isinstance(c.args[0], ast.Subscript)
+              and isinstance(c.args[0].slice, ast.Constant)
+              and not any(c in ast.walk(l) for l in loops)]
+    posderived = [x for x in ctx.unknown if "mask_file writes" in str(x)] \
+        if hasattr(ctx, "unknown") else []
+    if not found and single and not posderived:
+        ctx.check("C10-R4", mf, "cube branch " + norm(single[0], 60), False,
+                  "only plane %s of a cube is masked by the 2-d routine; "
+                  "every plane must be masked by mask_plane with the same "
+                  "wcs / region / negate" % norm(single[0].args[0].slice),
+                  node=single[0])
+        found = True
     if not found:
         raise AnalysisError("C10-R4: plane loop not found in mask_file")
     direct = [c for c in walk_no_nested(mf.node) if isinstance(c, ast.Call)
